@@ -29,7 +29,14 @@ class SpartanProtocol(BaseGopherProtocol):
 
         # Three non-empty parts, with the third part being an integer >= 0.
         parts = self.request.strip().split(" ")
-        return len(parts) == 3 and all(parts) and parts[2].isdigit()
+        # (a content length of 19+ digits cannot be a real one, and absurdly
+        # long digit strings make int() raise)
+        return (
+            len(parts) == 3
+            and all(parts)
+            and parts[2].isdigit()
+            and len(parts[2]) <= 18
+        )
 
     def handle(self):
         host, path, content_length = self.request.strip().split(" ")
